@@ -63,7 +63,9 @@ def judge_res(ctx, cases, nontrivial, ex):
         if any(boundary(a, v["rv"][j]) for j, a in enumerate(v["ra"])):
             nontrivial.add(core.canon([v["ra"], v["rv"], v["tagged"]]))
         what = None
-        if not o["invoked"]:
+        if o["anomalies"]:
+            what = "anomaly:" + ",".join(o["anomalies"])
+        elif not o["invoked"]:
             what = "fixed-valid-request-rejected:%s/%s" % (o["status"], o["errname"])
         elif o["status"] >= 400 or o["status"] == 0:
             what = None  # the server refused to encode: C03's business
@@ -92,8 +94,9 @@ def run(ctx):
                        "distinct = canonical JSON of (shapes, values)")
     ctx.assumptions += ["constraints apply to present values (JSON-Schema semantics); an unset optional attribute is valid",
                         "a zero value in a defaulted field may be read as unset: such requests are neither required to run nor to be rejected"]
-    for d in ("validate.absent_collection_length", "param.empty_string_is_absent"):
+    for d in ("validate.absent_collection_length", "param.empty_string_is_absent", "validate.map_value_required_unchecked"):
         ctx.mc_expect_violation("mc/MC_HTTPTransport", consts={"Deviations": '{"%s"}' % d}, label="MC dev " + d)
+    ctx.mc_expect_violation("mc/MC_HTTPTransport", consts={"Family": '"res"', "Deviations": '{"validate.map_value_required_unchecked"}'}, label="MC dev validate.map_value_required_unchecked (client side)")
     frac = float(os.environ.get("VERIF_FRAC") or (0.06 if quick else 1.0))
     nontrivial = set()
     vectors = hc.sample_shapes(hc.gen_vectors(ctx, "req", 1, 1), frac, ctx.seed)
